@@ -7,6 +7,7 @@ from pyvc.bounded import Driver
 
 POOL = [0, 1, -3, 2.5, -0.5, 1e10, 5, '', 'a', 'A', 'ab', 'B', '1', '5', 'true', 'FALSE', 'é', 'Z z',
         True, False, ('date', 2024, 2, 29), ('date', 1900, 1, 1), ('date', 1999, 12, 31), None]
+POOL += [0.1 + 0.2, 0.3, 1 / 3, 0.3333333333333333, 1e15 + 0.5, 1e15 + 0.25]
 OPS = {'<': 'OP_LT', '>': 'OP_GT', '<=': 'OP_LE', '>=': 'OP_GE', '=': 'OP_EQ', '<>': 'OP_NE'}
 
 
